@@ -35,7 +35,7 @@ type Outcome struct {
 	NonTrivial bool
 	Trace      []string
 	Sample     interface{}
-	RealProc   int // real-process executions
+	RealProc   int      // real-process executions
 	Infra      []string // trouble of the harness itself (never a property violation)
 }
 
@@ -135,22 +135,22 @@ func hasSig(o *Outcome, sig string) *Violation {
 // batch result, written as JSON for the driver
 
 type BatchResult struct {
-	Prop       string             `json:"property"`
-	Tier       string             `json:"tier"`
-	BatchSeed  uint64             `json:"batch_seed"`
-	From, To   int                `json:"-"`
-	Evals      int                `json:"evaluations"`
-	Runs       int                `json:"sim_runs"`
-	RealProc   int                `json:"real_process_runs"`
-	NonTrivial int                `json:"nontrivial"`
-	Hashes     []string           `json:"trace_hashes"` // of non-trivial evaluations
-	Stats      RunStats           `json:"stats"`
-	Violations []ViolationReport  `json:"violations"`
-	Samples    []interface{}      `json:"samples"`
-	WallS      float64            `json:"wall_s"`
-	Infra      []string           `json:"infra_errors"`
-	DetChecked int                `json:"determinism_rechecks"`
-	Race       bool               `json:"race_build"`
+	Prop       string            `json:"property"`
+	Tier       string            `json:"tier"`
+	BatchSeed  uint64            `json:"batch_seed"`
+	From, To   int               `json:"-"`
+	Evals      int               `json:"evaluations"`
+	Runs       int               `json:"sim_runs"`
+	RealProc   int               `json:"real_process_runs"`
+	NonTrivial int               `json:"nontrivial"`
+	Hashes     []string          `json:"trace_hashes"` // of non-trivial evaluations
+	Stats      RunStats          `json:"stats"`
+	Violations []ViolationReport `json:"violations"`
+	Samples    []interface{}     `json:"samples"`
+	WallS      float64           `json:"wall_s"`
+	Infra      []string          `json:"infra_errors"`
+	DetChecked int               `json:"determinism_rechecks"`
+	Race       bool              `json:"race_build"`
 }
 
 type ViolationReport struct {
